@@ -1,0 +1,8 @@
+//go:build !verif
+
+package nats
+
+// No-op verification hook. The real implementation is compiled in with the
+// build tag "verif" (see verif_on.go).
+
+func verifPoint(site string) {}
